@@ -50,7 +50,7 @@ def build (name : String) (gmw : Bool) (par : Nat) (x y w : List Nat) (nz : Nat)
   | "btc" => ok (bitClrTest x par)
   | "mux" => newMUX (w.getD 0 0) x y nz
   | "index" => ok (newIndex par x y)
-  | "hamming" => if mx ≥ 2 then ok (hamming gmw x y nz) else pure none
+  | "hamming" => ok (hamming gmw x y nz)
   | _ => pure none
 
 def known (name : String) : Bool :=
